@@ -18,8 +18,8 @@ RULE = ('Hypothesis: two or three classes with attributes of every core type wri
         'classes with >= 2 UNIQUE_ID attributes and both explicit and defaulted ids; distinct = by case.')
 ASSUMPTIONS = [
     'uniqueness is demanded among defaulted ids only (an explicit argument may collide with a generated value)',
-    'values passed for a referential attribute match no instance, so no link is created (linking through new() '
-    'is C03)',
+    'values passed for a referential attribute match no instance (linking through new() is C03), except the creations that '
+    'refer to one prepared instance: over a single-valued end the second of them is rejected, after its defaults were drawn',
     'user generators never yield the null id',
 ]
 
@@ -67,7 +67,7 @@ def cases(draw):
         pos = draw(st.integers(0, len(classes[0]['attrs'])))
         tattr = classes[1]['attrs'][0]
         classes[0]['attrs'].insert(pos, ['Ref_x9', tattr[1]])
-        ref = {'pos': pos, 'tgt_attr': tattr[0]}
+        ref = {'pos': pos, 'tgt_attr': tattr[0], 'src_many': draw(st.booleans()), 'clash': draw(st.booleans())}
     unknown = None
     if draw(st.integers(0, 5)) == 0:
         unknown = {'cls': draw(st.integers(0, ncls - 1)), 'type': draw(st.sampled_from(['DATE', 'void', 'int', 'UNIQUEID', '']))}
@@ -76,7 +76,7 @@ def cases(draw):
     gen = draw(st.sampled_from(['int', 'uuid', 'custom']))
     seq = None
     if gen == 'custom':
-        seq = sorted(draw(st.sets(st.integers(1, 2 ** 128 - 1), min_size=1, max_size=6)))
+        seq = sorted(draw(st.sets(st.integers(1, 2 ** 127), min_size=1, max_size=6)))   # the replay generator counts on from the last one
     creations = []
     for _ in range(draw(st.integers(1, 8))):
         ci = draw(st.integers(0, ncls - 1))
@@ -91,7 +91,18 @@ def cases(draw):
                 continue
             if draw(st.integers(0, 3)) == 0:
                 kw[a[0]] = draw(value_for(a, ci, ref))
-        creations.append({'cls': ci, 'pos': pos, 'kw': kw, 'via': draw(st.sampled_from(['model', 'metaclass', 'call']))})
+        cr = {'cls': ci, 'pos': pos, 'kw': kw, 'via': draw(st.sampled_from(['model', 'metaclass', 'call']))}
+        if ref and ref['clash'] and ci == 0 and draw(st.booleans()):
+            # refers to the one existing instance of class 1: the second such creation over a single-valued end is
+            # rejected after the defaults were drawn
+            cr['refer'] = True
+            cr['pos'] = cr['pos'][:ref['pos']]
+        creations.append(cr)
+    if ref and ref['clash']:
+        # ... and the history ends with two referring creations and one that takes every default
+        for _ in range(2):
+            creations.append({'cls': 0, 'pos': [], 'kw': {}, 'via': draw(st.sampled_from(['model', 'metaclass', 'call'])), 'refer': True})
+        creations.append({'cls': draw(st.integers(0, ncls - 1)), 'pos': [], 'kw': {}, 'via': 'model'})
     # the metamodel's generator may be replaced between two creations (metamodel.id_generator is a plain attribute;
     # bridgepoint's Domain is built without one and given one afterwards)
     swap = draw(st.integers(1, len(creations))) if draw(st.integers(0, 2)) == 0 else None
@@ -141,10 +152,20 @@ def run_case(case, res=None):
     for c in classes:
         m.define_class(c['name'], [tuple(a) for a in c['attrs']])
     if case['ref']:
-        ass = m.define_association(1, classes[0]['name'], ['Ref_x9'], True, True, '',
+        ass = m.define_association(1, classes[0]['name'], ['Ref_x9'], case['ref'].get('src_many', True), True, '',
                                    classes[1]['name'], [case['ref']['tgt_attr']], False, True, '')
         ass.formalize()
         ass = None
+    clash_key = None
+    target = None
+    n_referring = 0
+    if case['ref'] and case['ref'].get('clash') and not case.get('load') and case['ref']['tgt_attr'] not in ('self', 'kind') and \
+            not any(t.upper() not in gen_schema.CORE_TYPES for n, t in classes[1]['attrs']):
+        tname, tty = [a for a in classes[1]['attrs'] if a[0] == case['ref']['tgt_attr']][0]
+        clash_key = {'UNIQUE_ID': 2 ** 100 + 7, 'INTEGER': 424242, 'STRING': 'the one', 'REAL': 424242.5}.get(tty.upper())
+        if clash_key is not None:
+            target = m.new(classes[1]['name'], **{case['ref']['tgt_attr']: clash_key})
+    explicit_ids = set(v for cr in case['creations'] for v in list(cr['pos']) + list(cr['kw'].values()) if isinstance(v, int))
     mcs = [m.find_metaclass(c['name']) for c in classes]
     dropped = bool(case.get('drop')) and not case.get('load') and case.get('swap') is None
     if dropped:
@@ -183,6 +204,11 @@ def run_case(case, res=None):
         loaded = dict((ci, list(m.select_many(c['name']))) for ci, c in enumerate(classes))
         # every defaulted id of every row was drawn before the first check
         uid_slots = sum(1 for cr in case['creations'] if cr['pos'] for n, t in classes[cr['cls']]['attrs'] if t.upper() == 'UNIQUE_ID')
+    if target is not None:
+        for n, t in classes[1]['attrs']:
+            if t.upper() == 'UNIQUE_ID':
+                uid_slots += 1
+                used.add(getattr(target, n))
     creations = list(case['creations'])
     if loaded is not None:
         # ... the creations without positional values, and one more instance of every class, go through the API afterwards:
@@ -200,6 +226,10 @@ def run_case(case, res=None):
         attrs = c['attrs']
         has_unknown = any(t.upper() not in gen_schema.CORE_TYPES and n != 'Ref_x9' for n, t in attrs)
         mc = mcs[cr['cls']] if dropped else m.find_metaclass(c['name'])
+        refer = bool(cr.get('refer')) and clash_key is not None and loaded is None
+        if refer:
+            cr = dict(cr, kw=dict(cr['kw'], Ref_x9=clash_key))
+        expect_reject = refer and n_referring >= 1 and not case['ref'].get('src_many', True)
         # upper bound on generator draws so far: one per non-referential id attribute of every attempt,
         # rejected attempts (unknown type) included
         uid_slots += sum(1 for n, t in attrs if t.upper() == 'UNIQUE_ID' and n != 'Ref_x9')
@@ -216,7 +246,7 @@ def run_case(case, res=None):
             else:
                 inst = mc(*cr['pos'], **cr['kw'])
         except xtuml.MetaException as e:
-            if has_unknown:
+            if has_unknown or expect_reject:
                 continue
             fail('new-raised:' + exc_bucket(e), repr(e))
         except Exception as e:
@@ -225,12 +255,19 @@ def run_case(case, res=None):
             fail('new-exception:' + exc_bucket(e), repr(e))
         if has_unknown:
             fail('unknown-type-accepted', 'class %s has an attribute of unknown type but new() returned' % c['name'])
+        if expect_reject:
+            fail('second-partner-accepted', 'a second %s referring to the same %s over a single-valued end was created' % (c['name'], classes[1]['name']))
+        if refer:
+            n_referring += 1
         created += 1
         touched.add(cr['cls'])
         for k, (n, t) in enumerate(attrs):
             got = getattr(inst, n)
             if n == 'Ref_x9':
-                if got is not None:
+                if refer:
+                    if not same(got, clash_key):
+                        fail('linked-referential-other-value', '%s reads %r, the referred instance carries %r' % (n, got, clash_key))
+                elif got is not None:
                     fail('unlinked-referential-not-unset', '%s reads %r' % (n, got))
                 continue
             if n in cr['kw']:
@@ -259,6 +296,14 @@ def run_case(case, res=None):
             if got in used:
                 fail('defaulted-id-repeats', '%s.%s = %r was already handed out' % (c['name'], n, got))
             used.add(got)
+            if not dropped:
+                # ... nor is it carried by any other instance the metamodel holds (those a rejected creation left included)
+                for c2 in classes:
+                    for other in m.select_many(c2['name']):
+                        for n2, t2 in c2['attrs']:
+                            if t2.upper() == 'UNIQUE_ID' and n2 != 'Ref_x9' and not (other is inst and n2 == n) and \
+                                    getattr(other, n2) == got and got not in explicit_ids:
+                                fail('defaulted-id-repeats', '%s.%s = %r is also the %s of another instance of the metamodel' % (c['name'], n, got, n2))
             if swapped is not None:
                 if got not in g.handed:
                     fail('defaulted-id-not-from-generator', '%r not produced by the generator installed before this creation' % (got,))
@@ -292,6 +337,8 @@ def run_case(case, res=None):
             cl.append('unknown-type')
         if case['ref']:
             cl.append('has-referential')
+        if clash_key is not None and n_referring:
+            cl.append('referring-creations')
         res.case(case, nt, sample=case if nt else None, classes=cl)
 
 
